@@ -597,10 +597,10 @@ func plans(thorough bool) []plan {
 		{fam: fam("1-level/<=4 entries", 1, 4, 2, 0, true), depth: 3, bounds: b15, intra: true, tsun: true, nobloo: true},
 		{fam: fam("2-level/<=3 entries", 2, 3, 2, 0, true), depth: 3, bounds: b15, intra: true, tsun: true, nobloo: true},
 		{fam: fam("3-level/<=3 entries", 3, 3, 2, 0, true), depth: 3, bounds: b15, intra: true, tsun: true, nobloo: true},
-		{fam: fam("2-level/<=4 entries/<=1 tombstone", 2, 4, 1, 0, false), depth: 3, bounds: b15, tsun: true, nobloo: true},
-		{fam: fam("3-level/<=4 entries/1 tombstone", 3, 4, 1, 1, false), depth: 3, bounds: b5, tsun: true, nobloo: true},
 		{fam: fam("1-level/<=3 entries", 1, 3, 2, 0, true), depth: 4, bounds: b15, tsun: true, nobloo: true},
 		{fam: fam("2-level/<=3 entries/1 tombstone", 2, 3, 1, 1, false), depth: 4, bounds: b5, tsun: true, nobloo: true},
+		{fam: fam("2-level/<=4 entries/<=1 tombstone", 2, 4, 1, 0, false), depth: 3, bounds: b15, tsun: true, nobloo: true},
+		{fam: fam("3-level/<=4 entries/1 tombstone", 3, 4, 1, 1, false), depth: 3, bounds: b5, tsun: true, nobloo: true},
 	}
 }
 
